@@ -924,22 +924,22 @@ class MultipleTableCoordinate(BaseTableCoordinate):
         dropped_world_dimensions["world_axis_names"] += [name or None for name in dropped_multi_table.frame.axes_names]
         dropped_world_dimensions["world_axis_physical_types"] += list(dropped_multi_table.frame.axis_physical_types)
         dropped_world_dimensions["world_axis_units"] += [u.to_string() for u in dropped_multi_table.frame.unit]
-        dropped_world_dimensions["world_axis_object_components"] += dropped_multi_table.frame._world_axis_object_components
-        dropped_world_dimensions["world_axis_object_classes"].update(dropped_multi_table.frame._world_axis_object_classes)
+        dropped_world_dimensions["world_axis_object_components"] += dropped_multi_table.frame.world_axis_object_components
+        dropped_world_dimensions["world_axis_object_classes"].update(dropped_multi_table.frame.world_axis_object_classes)
 
         for dropped in self._dropped_coords:
             # If the table is a tuple (QuantityTableCoordinate) then we need to
             # squish the input
             if isinstance(dropped.table, tuple):
-                coord = dropped.frame.coordinate_to_quantity(*dropped.table)
+                coord = dropped.frame.from_high_level_coordinates(*dropped.table)
             else:
-                coord = dropped.frame.coordinate_to_quantity(dropped.table)
+                coord = dropped.frame.from_high_level_coordinates(dropped.table)
 
             # We want the value in the output dict to be a flat list of values
             # in the order of world_axis_object_components, so if we get a
             # tuple of coordinates out of gWCS then append them to the list, if
             # we only get one quantity out then append to the list.
-            if isinstance(coord, tuple):
+            if isinstance(coord, (tuple, list)):
                 dropped_world_dimensions["value"] += list(coord)
             else:
                 dropped_world_dimensions["value"].append(coord)
